@@ -24,6 +24,7 @@ from typing import Any
 
 from happysimulator.core.entity import Entity
 from happysimulator.core.event import Event
+from happysimulator.core.sim_future import SimFuture
 
 logger = logging.getLogger(__name__)
 
@@ -147,18 +148,21 @@ class Mutex(Entity):
         self._contentions += 1
         enqueue_time = self._clock.now.nanoseconds if self._clock else 0
 
-        # Create a flag that will be set when we get the lock
+        # Create a flag that will be set when we get the lock, and a future
+        # the waiting process parks on (no events are scheduled while waiting)
         acquired = [False]
+        wake = SimFuture()
 
         def on_wake():
             acquired[0] = True
+            wake.resolve()
 
         waiter = _Waiter(callback=on_wake, enqueue_time_ns=enqueue_time)
         self._waiters.append(waiter)
 
-        # Yield control until woken
+        # Park until woken by release()
         while not acquired[0]:
-            yield 0.0
+            yield wake
 
         # Now we have the lock
         self._owner = owner
